@@ -3,16 +3,20 @@
 Sub-checks (each compares the real quara code with the extracted Coq model on the same inputs and evaluates the
 property's own predicates on the implementation's outputs):
   rn2data        _random_number_to_data vs model (exact rationals), interval / p_i>0 predicates
-  fallback       the fallback branch: exact-arithmetic and binary64 witnesses replayed on the real code (finding C14-1)
+  fallback       the loop-runs-to-its-end branch (random number >= accumulated float sum): binary64 / exact witnesses with trailing,
+                 interior and leading zeros - the outcome must be the LAST index of POSITIVE probability (fix C14-rn2data-fallback-zero-probability)
   gen_data       generate_data_from_prob_dist / generate_dataset_from_prob_dists vs model fed with the oracle's random numbers
   empi_seq       calc_empi_dist_sequence(s): exhaustive short data x request patterns, random long data, malformed stream
   flow           session histories (global seeding, unrelated draws, shared generators, int seeds) through data_generator,
                  Experiment, MultinomialDistribution and the four tomography classes vs the stream-dataflow model
-  seed_types     reset_seed(0) and numpy-integer seeds (findings C14-3 / C14-4)
+  seed_types     direct predicates for reset_seed(z) (z = 0 included; fix C14-reset-seed-zero) and numpy-integer seeds (fix
+                 C14-to-stream-numpy-integer-seed): function of the seed only, same as the int seed, members of a sequence advance
   chi2           (thorough tier, a TEST, not a proof obligation) fixed-seed chi-square of the two samplers
 MT19937 / numpy RandomState / scipy.stats.multinomial.rvs are ORACLES: the harness re-creates the generator the
 model names (kind, seed), replays the requests the model predicts in the predicted order and expects bit-identical
-values."""
+values.
+The model is the code AS REPAIRED by /verif/fixes/C14-*.diff: on a tree without those repairs the sub-checks raise violations
+(each with a concrete replay) and the regenerated-model equivalence (coq/gen/C14_Equiv.v) does not compile."""
 import itertools, math, warnings
 from fractions import Fraction
 import numpy as np
@@ -75,6 +79,15 @@ def exact_sums(ps):
     return True
 
 
+def last_pos(ps):
+    """the last index of positive probability (len-1 if there is none)"""
+    lp = len(ps) - 1
+    for i, p in enumerate(ps):
+        if p > 0.0:
+            lp = i
+    return lp
+
+
 def margin(ps, r):
     c = Fraction(0); m = None
     for p in ps:
@@ -106,7 +119,8 @@ def chk_rn2data(ctx, case):
             ctx.violation("rn2data", "data_generator._random_number_to_data", "value",
                           "index %s, model %s for r=%r ps=%s" % (impl, mod, r, ps), rc)
             continue
-        # property predicates on the implementation's own output
+        # property predicates on the implementation's own output (they hold in FLOAT arithmetic too - theorem
+        # C14_only_positive_probability_outcomes needs only monotone rounding - so they are checked inside the band as well)
         if not (0 <= impl < len(ps)):
             ctx.violation("rn2data", "data_generator._random_number_to_data", "out-of-range", "index %s of %d" % (impl, len(ps)), rc)
         elif 0 <= r < cums[-1]:
@@ -114,8 +128,16 @@ def chk_rn2data(ctx, case):
             if zero_hit or not (lo <= r < cums[impl]):
                 ctx.violation("rn2data", "data_generator._random_number_to_data", "not-in-interval",
                               "r=%r returned %d: p_i=%r interval [%r,%r)" % (r, impl, ps[impl], lo, cums[impl]), rc)
-        elif r >= cums[-1] and impl != len(ps) - 1:
-            ctx.violation("rn2data", "data_generator._random_number_to_data", "fallback-not-last", "r=%r >= sum returned %d" % (r, impl), rc)
+        elif r >= cums[-1]:
+            if zero_hit and any(p > 0.0 for p in ps):
+                ctx.violation("rn2data", "data_generator._random_number_to_data", "zero-probability-outcome-at-fallback",
+                              "r=%r >= accumulated sum %r returned outcome %d whose probability is exactly 0 (ps=%s)" % (r, cums[-1], impl, ps), rc)
+            elif impl != last_pos(ps):
+                ctx.violation("rn2data", "data_generator._random_number_to_data", "fallback-not-last-positive",
+                              "r=%r >= accumulated sum returned %d, the last outcome of positive probability is %d" % (r, impl, last_pos(ps)), rc)
+            # the single-loop transcription of the model agrees with the split model (C14_single_loop_is_model; extraction cross-check)
+            if int(m.call("c14.rn2data_r", [], [r] + ps)[0]) != mod:
+                raise RuntimeError("extracted rn2data_r and rn2data disagree on %s %r" % (ps, r))
 
 
 def sub_rn2data(ctx):
@@ -132,10 +154,11 @@ def sub_rn2data(ctx):
             rs += [1.0, 1.5]                      # outside what a generator returns: the fallback branch
         cases.append({"ps": ps, "rs": rs})
     # fixed corner cases: leading / trailing / interior zeros, single outcome
-    for ps in ([0.0, 1.0], [1.0, 0.0], [0.0, 0.5, 0.0, 0.5, 0.0], [0.25, 0.0, 0.0, 0.75], [1.0], [0.5, 0.5], [2 ** -40, 1 - 2 ** -40]):
+    for ps in ([0.0, 1.0], [1.0, 0.0], [0.0, 0.5, 0.0, 0.5, 0.0], [0.25, 0.0, 0.0, 0.75], [1.0], [0.5, 0.5], [2 ** -40, 1 - 2 ** -40],
+               [0.5, 0.25, 0.0, 0.0], [0.0, 0.75, 0.0], [0.5, 0.0, 0.5 - 2.0 ** -30, 0.0, 0.0]):
         cums = float_cums(ps)
-        rs = sorted(set([0.0, 0.25, 0.5, 0.75, float(np.nextafter(1.0, 0.0))] + cums[:-1] + [float(np.nextafter(c, 0.0)) for c in cums if c > 0]))
-        cases.append({"ps": ps, "rs": [r for r in rs if r < 1.0]})
+        rs = sorted(set([0.0, 0.25, 0.5, 0.75, float(np.nextafter(1.0, 0.0))] + cums + [float(np.nextafter(c, 0.0)) for c in cums if c > 0]))
+        cases.append({"ps": ps, "rs": [r for r in rs if r < 1.0] + [1.0, 2.0]})
     ctx.sample("rn2data", cases[0])
     ctx.run_cases("rn2data", chk_rn2data, cases)
 
@@ -160,26 +183,40 @@ def chk_fallback(ctx, case):
         return
     impl = data[0]
     st, val = m.try_call("c14.gen_data", [1], [case.get("atol") or 1e-13, r] + ps)
-    ctx.count("fallback", key=(tuple(ps), r), label=case["kind"])
-    if case["kind"] == "exact" and (st != "ok" or int(val[0]) != impl):
-        ctx.violation("fallback", "data_generator.generate_data_from_prob_dist", "model-mismatch", "impl %s model %s %s" % (impl, st, val), case)
-        return
+    at_end = r >= float_cums(ps)[-1]                  # the float loop runs to its end
+    ctx.count("fallback", key=(tuple(ps), r), label=case["kind"] + ("/loop-end" if at_end else "/early-return"), nontrivial=at_end)
     if 0 <= r < 1 and 0 <= impl < len(ps) and ps[impl] == 0.0:
         ctx.violation("fallback", "data_generator._random_number_to_data", "zero-probability-outcome-at-fallback",
                       "random number %r (in [0,1)) with prob_dist %s (accepted by validate_prob_dist) yields outcome %d whose probability is exactly 0"
                       % (r, ps, impl), case)
+    elif at_end and impl != last_pos(ps):
+        ctx.violation("fallback", "data_generator._random_number_to_data", "fallback-not-last-positive",
+                      "random number %r >= accumulated sum: outcome %d, the last outcome of positive probability is %d" % (r, impl, last_pos(ps)), case)
+    elif case["kind"] == "exact" and (st != "ok" or int(val[0]) != impl):
+        ctx.violation("fallback", "data_generator.generate_data_from_prob_dist", "model-mismatch", "impl %s model %s %s" % (impl, st, val), case)
 
 
 def sub_fallback(ctx):
+    top = float(np.nextafter(1.0, 0.0))
     cases = [
         # the binary64 witness proved in Proofs/C14_Float.v: ten times 0.1 accumulates to 1 - 2^-53 = max Generator.random()
-        {"kind": "float", "ps": [0.1] * 10 + [0.0], "r": float(np.nextafter(1.0, 0.0))},
-        # the exact-arithmetic witness of C14_zero_probability_outcome_reachable_refuted (dyadic, so float == exact)
+        {"kind": "float", "ps": [0.1] * 10 + [0.0], "r": top},
+        # the exact-arithmetic witness of C14_only_positive_probability_outcomes_before_fix_refuted (dyadic, so float == exact)
         {"kind": "exact", "ps": [1 - 2.0 ** -44, 0.0], "r": 1 - 2.0 ** -44, "atol": 2.0 ** -44},
-        # controls: same vectors, r just inside -> no violation expected
+        {"kind": "exact", "ps": [0.0, 1 - 2.0 ** -44, 0.0, 0.0], "r": 1 - 2.0 ** -45, "atol": 2.0 ** -44},
+        # controls: r just inside -> early return
         {"kind": "control", "ps": [0.1] * 10 + [0.0], "r": 0.95},
-        {"kind": "control", "ps": [0.5, 0.5, 0.0], "r": float(np.nextafter(1.0, 0.0))},
+        {"kind": "control", "ps": [0.5, 0.5, 0.0], "r": top},
     ]
+    # every uniform vector [1/k]*k whose binary64 running sum stays below 1, followed by 1..3 zero-probability outcomes
+    # (and one with a zero in front): r = 1 - 2^-53 reaches the end of the loop
+    for k in range(2, ctx.n(60, 400)):
+        base = [1.0 / k] * k
+        if float_cums(base)[-1] < 1.0:
+            z = 1 + k % 3
+            cases.append({"kind": "float", "ps": base + [0.0] * z, "r": top})
+            cases.append({"kind": "float", "ps": [0.0] + base + [0.0] * z, "r": top})
+            cases.append({"kind": "float", "ps": base, "r": top})        # no zero at all: the last index is right
     ctx.sample("fallback", cases[0])
     ctx.run_cases("fallback", chk_fallback, cases)
 
@@ -289,37 +326,41 @@ def cmp_empi_one(ctx, sub, site, m, data, ns, case):
     label = ("ok" if st == "ok" else "err%s" % val) + ("" if wf else ("/first<=0" if ns and ns[0] <= 0 and m >= 0 else "/malformed"))
     ctx.count(sub, key=(m, tuple(data), tuple(ns)), label=label, nontrivial=(st == "ok" and len(ns) >= 2) or st == "err")
     if st == "err":
-        if impl[0] != "err" or EMPI_ERR[val] not in impl[1]:
+        if impl[0] == "ok" and val == 4 and ns and ns[0] <= 0 and len(impl[1]) != len(ns):
+            # a first sample size <= 0 must be rejected (fix C14-empi-seq-nonpositive-first-num-sum)
+            ctx.violation(sub, "data_generator.calc_empi_dist_sequence", "nonpositive-first-num-sum-silently-dropped",
+                          "num_sums=%s returns %d distributions and no error: the first sample size %d is never matched and every later (valid) sample size is silently dropped"
+                          % (list(ns), len(impl[1]), ns[0]), case)
+        elif impl[0] == "err" and val == 4 and ns and ns[0] <= 0 and EMPI_ERR[4] not in impl[1]:
+            ctx.violation(sub, "data_generator.calc_empi_dist_sequence", "nonpositive-first-num-sum-not-rejected-as-such",
+                          "num_sums=%s: the non-positive first sample size %d is not rejected; the call fails later with `%s`" % (list(ns), ns[0], impl[1][:100]), case)
+        elif impl[0] != "err" or EMPI_ERR[val] not in impl[1]:
             ctx.violation(sub, site, "error-kind", "model error %s (%s), implementation %s" % (val, EMPI_ERR[val], str(impl)[:200]), case)
         return
     if impl[0] == "err":
         ctx.violation(sub, site, "unexpected-raise", "implementation raised %s; model accepts" % impl[1][:120], case)
         return
     out = impl[1]
+    if not wf:
+        raise RuntimeError("model accepts a request that is not well-formed: %s" % case)      # cannot happen (C14_empi_seq_success_iff_wellformed)
     mm = max(m, 0)
     vals = list(val)
     mod = [(int(vals[i * (mm + 1)]), vals[i * (mm + 1) + 1:(i + 1) * (mm + 1)]) for i in range(len(vals) // (mm + 1))] if mm + 1 > 0 else []
     if len(out) != len(mod) or any(int(a[0]) != b[0] or len(a[1]) != len(b[1]) or any(float(x) != float(y) for x, y in zip(a[1], b[1])) for a, b in zip(out, mod)):
         ctx.violation(sub, site, "value", "implementation %s model %s" % (str(out)[:200], str([(n, [str(x) for x in e]) for n, e in mod])[:200]), case)
         return
-    # property predicates on the implementation's output
-    if wf:
-        exp = empi_expected(m, data, ns)
-        ok = len(out) == len(ns) and all(int(o[0]) == n and o[1].dtype == np.float64 and [float(x) for x in o[1]] == [float(x) for x in e] for o, (n, e) in zip(out, exp))
-        if not ok:
-            ctx.violation(sub, site, "not-prefix-counts", "well-formed request: got %s expected counts/n of the prefixes" % str(out)[:200], case)
-            return
-        for (n1, e1), (n2, e2) in zip(out, out[1:]):
-            if any(round(a * n1) > round(b * n2) for a, b in zip(e1, e2)):
-                ctx.violation(sub, site, "inconsistent-sequence", "counts decrease between n=%d and n=%d" % (n1, n2), case)
-        for n, e in out:
-            if m > 0 and (min(e) < 0 or abs(float(sum(e)) - 1.0) > 1e-12):
-                ctx.violation(sub, site, "not-a-distribution", "n=%d e=%s" % (n, e), case)
-    elif ns and ns[0] <= 0 and m >= 0 and len(out) != len(ns):
-        # finding C14-2: requests silently dropped
-        ctx.violation(sub, "data_generator.calc_empi_dist_sequence", "nonpositive-first-num-sum-silently-dropped",
-                      "num_sums=%s returns %d distributions (no error): the first sample size %d is never matched and all later ones are dropped"
-                      % (list(ns), len(out), ns[0]), case)
+    # property predicates on the implementation's output (independent specification: counts of the requested prefix / n)
+    exp = empi_expected(m, data, ns)
+    ok = len(out) == len(ns) and all(int(o[0]) == n and o[1].dtype == np.float64 and [float(x) for x in o[1]] == [float(x) for x in e] for o, (n, e) in zip(out, exp))
+    if not ok:
+        ctx.violation(sub, site, "not-prefix-counts", "well-formed request: got %s expected counts/n of the prefixes" % str(out)[:200], case)
+        return
+    for (n1, e1), (n2, e2) in zip(out, out[1:]):
+        if any(round(a * n1) > round(b * n2) for a, b in zip(e1, e2)):
+            ctx.violation(sub, site, "inconsistent-sequence", "counts decrease between n=%d and n=%d" % (n1, n2), case)
+    for n, e in out:
+        if m > 0 and (min(e) < 0 or abs(float(sum(e)) - 1.0) > 1e-12):
+            ctx.violation(sub, site, "not-a-distribution", "n=%d e=%s" % (n, e), case)
 
 
 def chk_empi_seq(ctx, case):
@@ -410,6 +451,8 @@ def sub_empi_seq(ctx):
             lns = lns[:-1] if lns else [[1]]
         elif u < 0.4 and k:
             ds[0][0] = 9
+        elif u < 0.5 and k:
+            lns[rng.randrange(k)][0] = rng.choice([0, -1])          # a non-positive first sample size somewhere in the list
         lcases.append({"ms": ms, "dataset": ds, "lns": lns})
     ctx.run_cases("empi_seq", chk_empi_seqs, lcases)
 
@@ -701,18 +744,24 @@ def chk_flow(ctx, case):
                 "empi_dists_seq": "generate_empi_dists_sequence", "sampling": "execute_random_sampling"}[fn]
         try:
             impl = ("ok", do_call())
-        except (ValueError, IndexError) as e:
+        except (ValueError, IndexError, AttributeError, TypeError) as e:
             impl = ("err", type(e).__name__)
         ctx.count("flow", key=(case["id"], i), label="%s.%s/%s/%s" % (t, fn, sog[0], st if st == "ok" else "err%s" % rows),
                   nontrivial=(st == "ok" and i > 0))
         sig.append("%s.%s/%s" % (t, fn, sog[0]))
+        # failure class suffix: which seed-handling feature the step exercises (keeps (site, signature) specific)
+        feat = ""
+        if sog[0] == "npint" or any(x[0] == "npint" for x in (h.get("ss") or [])):
+            feat = ":numpy-integer-seed"
+        elif sog[0] == "none" and any(g["op"] == "reset_seed" and g["seed"] == 0 for g in hops[:i]):
+            feat = ":after-reset-seed-zero"
         if st == "err":
             if impl[0] != "err" or impl[1] != FLOW_ERR[rows]:
                 ctx.violation("flow", site, "error-kind", "step %d: model raises error %s (%s), implementation %s" % (i, rows, FLOW_ERR[rows], str(impl)[:150]), case)
                 return
             continue
         if impl[0] == "err":
-            ctx.violation("flow", site, "unexpected-raise", "step %d: implementation raised %s, model returns a value" % (i, impl[1]), case)
+            ctx.violation("flow", site, "unexpected-raise" + feat, "step %d (%s seed argument): implementation raised %s, model returns a value" % (i, sog[0], impl[1]), case)
             return
         got = norm_rows(fn, impl[1])
         if [len(r) for r in got] != [len(r) for r in rows]:
@@ -739,21 +788,21 @@ def chk_flow(ctx, case):
                     exp = [float(Fraction(c, rn)) for c in cnt] if rn > 0 else None
                     ci = [int(round(float(x) * rn)) for x in gv] if rn > 0 else []
                     if rn > 0 and not (gn == rn and len(gv) == len(p) and sum(ci) == rn and min(ci) >= 0 and [float(Fraction(c, rn)) for c in ci] == [float(x) for x in gv]):
-                        ctx.violation("flow", site, "not-counts-over-n", "step %d: returned (%s, %s) is not a vector of counts divided by the sample size %d" % (i, gn, str(gv)[:80], rn), case)
+                        ctx.violation("flow", site, "not-counts-over-n", "step %d: returned (%s, %s) is not a vector of counts divided by the sample size %d" % (i, gn, str(gv)[:80].replace("\n", " "), rn), case)
                         return
                     ok = gn == s["n"] == rn and exp is not None and [float(x) for x in gv] == exp
                     valid = ok and abs(sum(exp) - 1) < 1e-12 and all(e >= 0 for e in exp) and all(e == 0 for e, q in zip(exp, p) if q == 0) and sum(cnt) == rn
                 else:
                     ok = np.array_equal(np.asarray(gv), np.asarray(val)); valid = ok and all(int(sum(r)) == rn for r in np.asarray(gv).reshape(-1, len(p)))
                 if not ok:
-                    ctx.violation("flow", site, "stream-dataflow",
+                    ctx.violation("flow", site, "stream-dataflow" + feat,
                                   "step %d (%s seed argument): a returned value is not draw #%d of stream %s (kind 0 = global state seeded, 1 = Generator(MT19937(seed))) as the dataflow model predicts; got %s"
-                                  % (i, sog[0], s["pos"], s["stream"], str(gv)[:80]), case)
+                                  % (i, sog[0], s["pos"], s["stream"], str(gv)[:80].replace("\n", " ")), case)
                     return
                 if not valid:
-                    ctx.violation("flow", site, "invalid-sample", "step %d: value %s is not counts/n / contains a zero-probability outcome (p=%s)" % (i, str(gv)[:80], p), case)
+                    ctx.violation("flow", site, "invalid-sample", "step %d: value %s is not counts/n / contains a zero-probability outcome (p=%s)" % (i, str(gv)[:80].replace("\n", " "), p), case)
                     return
-        if sog[0] == "int" and not (t == "dg" and fn == "dataset"):
+        if sog[0] in ("int", "npint") and not (t == "dg" and fn == "dataset"):
             seeded_calls.append((i, site, do_call, impl[1]))
     # ---- final state of everything observable
     gl = world["glob"]
@@ -803,10 +852,10 @@ def gen_history(rng, hid, focus=None):
             hops.append({"op": "construct", "cls": cls, "sd": sd}); made.append((nobj, cls)); nobj += 1; continue
         if u < 0.40 and [m for m in made if m[1] != "ex"]:
             oid, cls = rng.choice([m for m in made if m[1] != "ex"])
-            hops.append({"op": "reset_seed", "oid": oid, "seed": rng.choice([None, rng.randint(1, 10 ** 6)])}); continue
+            hops.append({"op": "reset_seed", "oid": oid, "seed": rng.choice([None, rng.randint(1, 10 ** 6), 0])}); continue
         t = rng.choice(targets)
         v = rng.random()
-        sog = ["none"] if v < 0.3 else (["int", rng.choice(int_seeds)] if v < 0.62 else (["gen", rng.randrange(ngen)] if v < 0.94 else ["npint", rng.choice(int_seeds)]))
+        sog = ["none"] if v < 0.3 else (["int", rng.choice(int_seeds)] if v < 0.6 else (["gen", rng.randrange(ngen)] if v < 0.9 else ["npint", rng.choice(int_seeds)]))
         S = NSCHED.get(t, 0)
         nn = lambda: rng.choice([1, 2, 7, 30, 100])
         h = {"op": "call", "target": t, "sog": sog}
@@ -816,7 +865,7 @@ def gen_history(rng, hid, focus=None):
             elif fn == "dataset":
                 k = rng.randint(1, 3); pds = [rng.randrange(len(PDS)) for _ in range(k)]
                 w = rng.random()
-                ss = None if w < 0.3 else [rng.choice([["none"], ["int", rng.choice(int_seeds)], ["gen", rng.randrange(ngen)]]) for _ in range(k)]
+                ss = None if w < 0.3 else [rng.choice([["none"], ["int", rng.choice(int_seeds)], ["gen", rng.randrange(ngen)], ["npint", rng.choice(int_seeds)]]) for _ in range(k)]
                 ns = [rng.choice([0, 1, 5, 20]) for _ in range(k)]
                 if rng.random() < 0.1: ns = ns[:-1]
                 elif rng.random() < 0.1 and ss is not None: ss = ss + [["none"]]
@@ -843,8 +892,6 @@ def gen_history(rng, hid, focus=None):
             if fn == "empi_dist": h.update(fn=fn, sched=rng.choice(list(range(S)) + [S]), n=nn())
             elif fn == "empi_dists": h.update(fn=fn, n=nn())
             else: h.update(fn=fn, ns=[nn() for _ in range(rng.randint(0, 3))])
-        if h["sog"][0] == "npint" and h["fn"] in ("data", "dataset"):
-            h["sog"] = ["int", h["sog"][1]]          # stream.random on a numpy integer raises AttributeError (not modelled; see seed_types)
         hops.append(h)
     return {"id": hid, "hops": hops}
 
@@ -862,42 +909,71 @@ def sub_flow(ctx):
     ctx.run_cases("flow", chk_flow, cases)
 
 
-# ====================================================================== seed types (findings C14-2, C14-3)
+# ====================================================================== seed types (direct property predicates)
 def chk_seed_types(ctx, case):
     from quara.qcircuit import data_generator as dg
     kind = case["kind"]
-    if kind == "reset_seed_zero":
-        # an explicit seed 0 given to reset_seed must make the following (None-seeded) generation a function of that seed
+    if kind == "reset_seed_zero":                    # replay files written before round 2
+        kind = "reset_seed"; case = dict(case, sds=[None] * len(case["pre"]))
+    if kind not in ("reset_seed", "numpy_int_seed"):
+        raise ValueError("unknown seed_types case %r" % (kind,))
+    if kind == "reset_seed":
+        # an explicit seed z given to reset_seed must make the following (None-seeded) generation a function of z only:
+        # independent of the earlier global state and of the object's own seed_data, and equal to what np.random.seed(z) gives
+        cls, z = case["cls"], case["seed"]
+        true = objects()[TRUE[cls]]
         outs = []
-        for pre in case["pre"]:
+        for pre, sd in zip(case["pre"], case["sds"]):
             np.random.seed(pre)
-            t = make_obj(case["cls"], None)
-            t.reset_seed(case["seed"])
-            outs.append(repr(t.generate_empi_dists(objects()[TRUE[case["cls"]]], 50)))
-        ctx.count("seed_types", key=(kind, case["cls"], case["seed"]), label="%s/seed=%s" % (kind, case["seed"]))
+            t = make_obj(cls, sd)
+            np.random.random(pre % 5)                # unrelated draws
+            t.reset_seed(z)
+            outs.append(repr(t.generate_empi_dists(true, 50)))
+        t = make_obj(cls, None)
+        np.random.seed(z)
+        ref = repr(t.generate_empi_dists(true, 50))
+        ctx.count("seed_types", key=(kind, cls, z), label="%s/seed=%s" % (kind, "0" if z == 0 else "nonzero"))
         if len(set(outs)) != 1:
-            ctx.violation("seed_types", "QTomography.reset_seed", "seed-zero-ignored",
-                          "reset_seed(%s) on %s: the data generated afterwards still depend on the earlier global state (`if seed:` treats 0 as no seed)"
-                          % (case["seed"], case["cls"]), case)
+            ctx.violation("seed_types", "QTomography.reset_seed", "seed-zero-ignored" if z == 0 else "seed-ignored",
+                          "reset_seed(%s) on %s: the data generated afterwards still depend on the earlier global state / the object's seed_data%s"
+                          % (z, cls, " (`if seed:` treats 0 as no seed)" if z == 0 else ""), case)
+        elif outs[0] != ref:
+            ctx.violation("seed_types", "QTomography.reset_seed", "seed-not-global-seed",
+                          "reset_seed(%s) on %s: the data generated afterwards are not those generated after np.random.seed(%s)" % (z, cls, z), case)
     elif kind == "numpy_int_seed":
         p = np.array(case["ps"]); ns = [case["n"]] * 4
+        mk = (lambda: np.int64(case["seed"])) if case["mk"] == "np" else (lambda: int(case["seed"]))
+        tag = "np.int64" if case["mk"] == "np" else "int"
+        ctx.count("seed_types", key=(kind, case["mk"], case["seed"]), label="%s/%s" % (kind, case["mk"]))
         with warnings.catch_warnings():
             warnings.simplefilter("ignore")
-            a = dg.generate_empi_dist_sequence_from_prob_dist(p, ns, case["mk"] == "np" and np.int64(case["seed"]) or int(case["seed"]))
+            a = dg.generate_empi_dist_sequence_from_prob_dist(p, ns, mk())
+            ref = dg.generate_empi_dist_sequence_from_prob_dist(p, ns, int(case["seed"]))
+            try:
+                d = dg.generate_data_from_prob_dist(p, 20, mk())
+            except AttributeError as e:
+                d = "AttributeError: %s" % e
+            dref = dg.generate_data_from_prob_dist(p, 20, int(case["seed"]))
         same = all(np.array_equal(a[0][1], x[1]) for x in a[1:])
-        ctx.count("seed_types", key=(kind, case["mk"], case["seed"]), label="%s/%s" % (kind, case["mk"]))
         if same:
             ctx.violation("seed_types", "number_util.to_stream", "numpy-integer-seed-restarts-stream",
                           "seed %s(%d): the %d members of one sequence are identical copies %s - every multinomial draw restarts from the seed instead of advancing one stream (`type(seed) == int` is False for numpy integers)"
-                          % ("np.int64" if case["mk"] == "np" else "int", case["seed"], len(ns), a[0][1]), case)
+                          % (tag, case["seed"], len(ns), a[0][1]), case)
+        elif repr(a) != repr(ref) or d != dref:
+            ctx.violation("seed_types", "number_util.to_stream", "numpy-integer-seed-differs-from-int-seed",
+                          "seed %s(%d) does not give the output of the int seed %d: sequence %s vs %s, data %s vs %s"
+                          % (tag, case["seed"], case["seed"], str(a)[:80], str(ref)[:80], str(d)[:60], str(dref)[:60]), case)
 
 
 def sub_seed_types(ctx):
+    rng = ctx.rng
     cases = []
     for cls in ("qst", "povmt", "qpt", "qmpt"):
-        cases.append({"kind": "reset_seed_zero", "cls": cls, "seed": 0, "pre": [11, 12]})
-        cases.append({"kind": "reset_seed_zero", "cls": cls, "seed": 5, "pre": [11, 12]})       # control: honoured
-    cases.append({"kind": "numpy_int_seed", "mk": "np", "seed": 5, "ps": [0.3, 0.3, 0.4], "n": 1000})
+        for z in (0, rng.randint(1, 10 ** 6)):
+            cases.append({"kind": "reset_seed", "cls": cls, "seed": z, "pre": [rng.randint(1, 10 ** 6), rng.randint(1, 10 ** 6), 13],
+                          "sds": [None, None, rng.randint(1, 10 ** 6)]})
+    for seed in (5, 0, rng.randint(1, 2 ** 31)):
+        cases.append({"kind": "numpy_int_seed", "mk": "np", "seed": seed, "ps": [0.3, 0.3, 0.4], "n": 1000})
     cases.append({"kind": "numpy_int_seed", "mk": "int", "seed": 5, "ps": [0.3, 0.3, 0.4], "n": 1000})   # control
     ctx.sample("seed_types", cases[0])
     ctx.run_cases("seed_types", chk_seed_types, cases)
@@ -943,10 +1019,11 @@ FNS = {"rn2data": chk_rn2data, "fallback": chk_fallback, "gen_data": chk_gen_dat
 
 def run(ctx):
     ctx.rule = ("probability vectors with exact zeros, tiny entries, 1..16 outcomes, half of them dyadic (partial sums exact, so boundary "
-                "decisions r == cum_i are compared), r at / just below / just above cumulative sums; calc_empi_dist_sequence exhaustively on all "
+                "decisions r == cum_i are compared), r at / just below / just above cumulative sums and beyond the accumulated sum; uniform vectors "
+                "whose binary64 sum stays below 1 followed / preceded by zero-probability outcomes with r = 1-2^-53; calc_empi_dist_sequence exhaustively on all "
                 "data over {-1..m} up to length 3 (4 thorough) x 25 request patterns, random long data and a malformed stream; session histories of "
                 "4-9 steps mixing np.random.seed, unrelated global / shared-generator draws, constructors with seed_data, reset_seed and calls with "
-                "None / int / shared-Generator seeds through data_generator, Experiment, MultinomialDistribution and the four tomography classes "
+                "None / int / numpy-integer / shared-Generator seeds through data_generator, Experiment, MultinomialDistribution and the four tomography classes "
                 "(true objects generic, testers with unequal outcome counts). non-trivial: decision outside the ambiguity band / a vector with a zero "
                 "entry (rn2data), >= 2 members or an error branch (empi_seq), a call that is not the first step (flow); distinct = distinct input record")
     # _random_number_to_data is additionally REGENERATED from /repo's source by the translator on every run and proved equal to the
